@@ -47,6 +47,11 @@ CHECKS = {
         text="Theorems C06_isolation, C06_results_are_per_file, C06_exit_status, C06_depth_exponential_refuted (no axioms). Each run: ~35-40 malformed contents (syntax errors, truncations, bit flips, binary, encodings, CR/CRLF, long lines, deep parentheses) analysed alone and mixed into a project of good files: exit status in {0,1}, no panic/goroutine trace, time bound, report sections of the good files identical to the baseline; 4 formats written; nesting depth up to 160/320; calculateMaxDepth vs its Coq model on random graphs.",
         note="partial: tree-sitter, Go runtime (stack, memory), wall clock and OS are not modelled; the malformed stream is a test, not a proof. F29 (panic on elif without body) repaired; F21 (exponential longest-chain search) recorded as open known finding.",
         design="5 C06"),
+    "C10": dict(
+        technique="Coq proofs over executable models of the four grouping strategies (internal/analyzer/*_grouping.go) plus a computable contract checker proved equivalent to the contract and run on the implementation's output; constants regenerated from Go source; differential correspondence (vm_compute) against the tagged Go driver (op group) and the CLI JSON report",
+        text="Theorems (Props/C10.v, no axioms): for every pair list, threshold > 0, k and map order the model's groups satisfy the selected mode's contract (>= 2 members, disjoint, connected inside the group through pairs >= t; connected = exactly the components of G_t with >= 2 members; complete = cliques; k-core = >= k neighbours inside the group; star = a medoid >= t with every other member); check_contract <-> contract; bounded: k-core groups = components of the k-core on all 4-fragment graphs and all map orders. Every run: real GroupClones on all weighted graphs on <= 4 fragments (5-point threshold lattice), sampled 5-fragment graphs, structured and random graphs to 40 fragments, decided by the proved checker, implementation compared with the model as sets of sets; clone.clone_groups[] of the CLI report checked per grouping_mode.",
+        note="Hand-written models (union-find as quick-find, almostEqual as exact equality on dyadic similarities, one list for all map iteration orders); group ids/order/Similarity/CloneType not modelled. Assumes t > 0 and no self pairs. k-core exactness and fuel sufficiency only bounded. C10-F27 fixed (config grouping settings were ignored), C10-F28 open (report filters pairs after grouping).",
+        design="5 C10"),
     "C11": dict(
         technique="Coq proof: reachability-closure specification of non-trivial SCCs with proved characterisation; literal Gallina model of circular_detector.go (Tarjan) and AddModule/AddDependency; proved certificate checker run on the implementation's outputs; exhaustive vm_compute equivalence on all digraphs <=4 modules; constants/decision expressions regenerated from Go source; differential correspondence against the tagged driver and the CLI",
         text="Theorems (Props/C11.v, no axioms): closure decides reachability; scc_spec = maximal mutually-reachable sets with >=2 members, pairwise disjoint, each once; same-cycle <=> mutual reachability; check_sccs accepts only the spec (all graphs, all outputs); Tarjan model = spec for every digraph on <=4 modules x 6 iteration orders (bounded); for all graphs the model's components have >=2 modules and are pairwise disjoint, count = #components, modules-in-cycles = sum of sizes, severity = documented table (partial). Every run: all digraphs <=4 modules, sampled (thorough: all 2^20) 5-module digraphs, random graphs to 60 modules and generated Python projects are run through the real detector/CLI and compared with the spec, the proved checker and the model.",
